@@ -307,6 +307,9 @@ func checkC18(r *Run) propMeta {
 	}
 	checkScanTotals(r, p)
 	checkInjectiveNaming(r, p)
+	checkNumberPreservingDecode(r, p)
+	checkLineLimitAgreement(r, p)
+	r.Floor("C18-R8-number-preserving-decode", 1)
 	r.Floor("C18-R1-codec-table", 4)
 	r.Floor("C18-R1-record-fields", 7)
 	r.Floor("C18-R3-manifest-entry", 5)
